@@ -45,6 +45,7 @@ def _unit(d, u):
 
 def streams(tier, rng):
     big = tier == "thorough"
+    by_family = {}
     for d in xcut.all_decoders():
         if d["declared_len"] is None:
             continue
@@ -57,6 +58,34 @@ def streams(tier, rng):
             for s in suffixes(rng, u, units, big):
                 cases.append((op, [u + s] + extra + [[len(u)]]))
         yield "suffix_%d_%s" % (op, name.replace(" ", "_")[:40]), "exact", cases
+        # decoder parameter x declared length x continuation.  The registry names other values of the decoder's
+        # parameters ("param_variants": timestamp length 0..18, step-ID / error-code widths); units that end in a CRC-16
+        # trailer get their length field rewritten and the trailer RECOMPUTED (xcut.repair), so that the checksum check
+        # passes and the code behind it sees a declared length that does not fit the parameters.  Whatever the verdict on
+        # the first N declared octets alone is, it must be the verdict (and the result) with further octets behind them.
+        extra_cases = by_family.setdefault(d["family"], [])
+        variants = [v for v in d.get("param_variants", []) if v != extra]
+        few = lambda u: [[], list(rng.choice(units)), [rng.randrange(256) for _ in range(2)],
+                         [rng.randrange(256) for _ in range(rng.choice([7, 24, 40]))], [0] * 20]
+        for u in units[: (10 if big else 4)]:
+            for ex in variants:
+                for s in few(u):
+                    extra_cases.append((op, [u + s] + ex + [[len(u)]]))
+            kind = xcut.crc_kind(d, u)
+            if kind is None:
+                continue
+            for q in xcut.length_rewrites(d, u, kind, big):
+                r = xcut.repair(d, q, rng.randrange(256), 70000 if big else 2048)
+                if r is None:
+                    continue
+                p, n = r
+                exs = [extra] + (variants if big else rng.sample(variants, min(len(variants), 4)))
+                for ex in exs:
+                    for s in few(u)[: (5 if big else 3)]:
+                        extra_cases.append((op, [p[:n] + s] + ex + [[n]]))
+    for fam in sorted(by_family):
+        if by_family[fam]:
+            yield "params_x_declared_length_family_%d_%s" % (fam, xcut.FAMILY_MODULE[fam]), "exact", by_family[fam]
 
 
 def impl(op, a):
@@ -83,7 +112,16 @@ def oracle(case, ires, sres):
     name = next((d["name"] for d in xcut.all_decoders() if d["op"] == op), "op%d" % op)
     fam = op // 100
     if alone[0][0] == 1:
-        return None     # the registry's unit is not accepted on its own: nothing to compare (C10 / per-property checks cover it)
+        # the first N declared octets are refused on their own: octets behind them must not turn that into an acceptance
+        # (they would have been folded into the result), nor into an undocumented failure
+        if ires[0][0] == 0:
+            return ("C09/%s/suffix-changes-verdict" % name,
+                    "the %d declared octets alone are refused (%s) but accepted when followed by %s: parameters %s, result %s" % (
+                        ulen, core.ERR_NAMES.get(alone[0][1], alone[0][1]), data[ulen:][:12], extra, str(ires[1:])[:200]))
+        if ires[0][1] in core.UNDOCUMENTED and ires[0][1] != alone[0][1]:
+            return ("C09/%s/undocumented-error-with-suffix" % name, "%d declared octets + %d trailing octets raise %s (alone: %s)" % (
+                ulen, len(data) - ulen, core.ERR_NAMES.get(ires[0][1], ires[0][1]), core.ERR_NAMES.get(alone[0][1], alone[0][1])))
+        return None
     if ires[0][0] == 1:
         code = ires[0][1]
         if code in core.UNDOCUMENTED:
